@@ -18,7 +18,7 @@ RULE = ("ops = Equal / String on generated type pairs (random nesting depth <= 4
 def gen(tier, rng, harness=None):
     lines = []
     if tier == "thorough":
-        U = tygen.small_universe()
+        U = tygen.small_universe() + ["s(i32,p0(n61))", "P(i32,p0(n61))", "s(i32,p0(n62))"]
         for a in U:
             lines.append("ty.string %s" % a)
             lines.append("!ty.rt %s" % a) if a != "v" else None
@@ -31,6 +31,14 @@ def gen(tier, rng, harness=None):
     for _ in range(n):
         a = tygen.gen_ty(rng, rng.randint(0, 4))
         b = tygen.mutate_ty(rng, a) if rng.random() < 0.7 else a
+        if rng.random() < 0.12:
+            # an identified struct against the literal struct with the very same body (the harness gives %n the body { i32, %n* })
+            nm = "n" + rng.choice(tygen.NAMES).hex()
+            twin = "%s(i32,p0(%s))" % (rng.choice(["s", "s", "P"]), nm)
+            wrap = rng.choice(["%s", "p0(%s)", "a2(%s)", "s(%s)", "V2(p0(%s))", "F(%s;)"])
+            a, b = wrap % nm, wrap % twin
+            if rng.random() < 0.5:
+                a, b = b, a
         c = tygen.mutate_ty(rng, rng.choice([a, b]))
         lines.append("ty.string %s" % a)
         lines.append("ty.equal %s %s" % (a, b))
